@@ -489,7 +489,8 @@ class NPShim:
         a = lift(a)
         if a.ndim == 2:
             return _np.array([a[i, i] for i in range(a.shape[0])], dtype=object)
-        out = self.zeros((a.shape[0], a.shape[0]))
+        out = _np.empty((a.shape[0], a.shape[0]), dtype=object)
+        out.fill(S(z3.RealVal(0)))
         for i in range(a.shape[0]):
             out[i, i] = a[i]
         return out
